@@ -47,7 +47,7 @@ def judge_case(d, edits, r, c):
 def run(tier, seed):
     ck = core.Check('C15', tier, seed)
     ck.proof_gate(['Props/C15.v'], extra_trusted=[
-        'the two matchers (markup.py text side, mapper.py document side) share only their exact stage in the models; fuzzy stages are oracle inputs on both sides',
+        'the two matchers (markup.py text side, mapper.py document side) have their exact and smart-quote stages in the models; the Markdown-stripped / fuzzy stages are oracle inputs on both sides',
         'harness/absdoc.py reader, python-docx; the agreement itself is decided differentially, not by a theorem'])
     rng = random.Random(seed)
     n = 1000 if tier == 'quick' else 20000
@@ -66,6 +66,9 @@ def run(tier, seed):
         # the preview works on the accepted view: the targets must be unique there too, and marker-free (formatting markers aside)
         if any(clean.count(e[0]) != 1 or any(ch in e[0] + e[1] for ch in '*_{}') for e in edits): continue
         cases.append((d, b, edits))
+    for d, edits in E.quote_cases(random.Random(seed + 77), 12 if tier == 'quick' else 48):      # one term in both quote spellings, the named occurrence split by a tracked change
+        b = A.build(d); raw, clean = docrun.extract(b, False), docrun.extract(b, True)
+        if E.exact_unique({'din': A.read(b, table=list(d['rpr_table'])), 'edits': edits}, raw, clean) is not None and clean.count(edits[0][0]) == 1: cases.append((d, b, edits))
     corpus = []
     for fid, case in core.finding_cases('C15'):       # recorded inputs (known findings and repaired defects) run first
         if case and 'doc' in case and 'edits' in case:
